@@ -59,7 +59,7 @@ def main(rep, tier, only):
         def count_of(u, fn, stream_method):
             for (n, d, q) in L.calls_in(u, fn.get("body")):
                 if q.endswith("::" + stream_method) and q.startswith("std::"):
-                    sz = [m for m in F.walk(n.get("args", [])) if m.get("k") == "sizeof"]
+                    sz = [m for a in n.get("args", []) for m in T.walk_through_locals(u, fn, a) if m.get("k") == "sizeof"]
                     return (u.ty(sz[0].get("arg_t")) if sz else None, T.show(T.norm(u, n.get("recv"))))
             return (None, None)
         rc, rs = count_of(ur, rd, "read")
@@ -95,26 +95,63 @@ def main(rep, tier, only):
         (rep.fail if why else rep.ok)("RW-SIB", key, F.primary_site(rd), F.describe(rd), **({"why": why} if why else {"how": "sizeof(%s);convert(.,_format)" % ty}))
     fn = first(db, "fcppt::io::read")
     if fn is not None:
-        cfg = sx.Config(inline_prefixes=("fcppt::cond",), pure=("fcppt::endianness::convert",))
+        # decision table of io::read, whichever way it is written: the stream's state after read() decides; failure => nothing,
+        # success => the converted buffer that was read into
+        cfg = sx.Config(inline_prefixes=("fcppt::cond", "fcppt::cast::"), pure=("fcppt::endianness::convert",))
         u = fn["_unit"]
-        conds = [n for n in F.walk(fn.get("body")) if n.get("k") == "cond"]
-        ok = False
-        if conds:
-            c = conds[0]
-            ct = T.show(T.norm(u, c["c_"]))
-            tt = T.show(T.norm(u, c["then"]))
-            et = T.show(T.norm(u, c["else"]))
-            buf = next((m.get("name") for m in F.walk(c["c_"]) if m.get("k") == "ref" and m.get("dk") == "local"), "?")
-            ok = "r_a0.read(" in ct and ("convert(%s, r_a1)" % buf) in tt and "{}" in et.replace("fcppt::optional::object", "")
-        (rep.ok if ok else rep.fail)("RW-SIB", "io::read|failure", F.primary_site(fn), F.describe(fn), **({"how": "stream failure => nothing"} if ok else {"why": "read does not return nothing exactly when the stream read fails"}))
+        why = None
+        rows = set()
+        try:
+            for p in sx.Interp(db, cfg).paths(fn, limit=16):
+                if p.outcome[0] != "return":
+                    continue
+                rd_ = [i_ for i_, e in enumerate(p.events, 1) if e[0].split("<")[0] in ("std::basic_istream::read", "std::istream::read")]
+                if len(rd_) != 1 or sx.show(p.events[rd_[0] - 1][1][0]) != fn["params"][0]["name"]:
+                    why = "the caller's stream is not read exactly once"
+                    break
+                buf = p.events[rd_[0] - 1][1][1]
+                success = None
+                for d, v in p.decisions:
+                    t, neg = d, False
+                    while isinstance(t, tuple) and t and t[0] == "not":
+                        t, neg = t[1], not neg
+                    if isinstance(t, tuple) and t and t[0] == "ev":
+                        e = p.events[t[1] - 1]
+                        nm = e[0].split("<")[0].split("::")[-1]
+                        if len(e[1]) == 1 and e[1][0] == ("ev", rd_[0], "read") or (len(e[1]) == 1 and isinstance(e[1][0], tuple) and e[1][0][:2] == ("ev", rd_[0])):
+                            if nm == "operator bool":
+                                success = (v != neg)
+                            elif nm in ("operator!", "fail"):
+                                success = not (v != neg)
+                            elif nm == "good":
+                                success = (v != neg)
+                if success is None:
+                    why = "the result is not decided by the state of the stream after the read"
+                    break
+                rows.add(success)
+                out = sx.show(p.outcome[1]).replace(" ", "")
+                bufname = sx.show(buf[1]) if isinstance(buf, tuple) and buf and buf[0] == "addr" else sx.show(buf)
+                if not success and not out.endswith(":none"):
+                    why = "the stream read failed but the result is %s" % out
+                elif success and out != "optional::object{convert(%s,%s)}:some" % (bufname, fn["params"][1]["name"]):
+                    why = "the stream read succeeded but the result is %s, expected convert(buffer read into, caller's format)" % out
+                if why:
+                    break
+            if not why and rows != {True, False}:
+                why = "success / failure of the stream read are not both possible"
+        except sx.Unsupported as e:
+            rep.broken("C15 RW-SIB io::read|failure: %s" % e)
+            why = "skip"
+        ok = why is None
+        if why != "skip":
+            (rep.ok if ok else rep.fail)("RW-SIB", "io::read|failure", F.primary_site(fn), F.describe(fn), **({"how": "stream failure => nothing"} if ok else {"why": why}))
     # ---------------- CONV
     fn = first(db, "fcppt::endianness::convert")
     if fn is None:
         rep.broken("C15: endianness::convert not instantiated")
     else:
         u = fn["_unit"]
-        rets = [r for r in F.walk(fn.get("body")) if r.get("k") == "return"]
-        t = T.snorm(u, fn, rets[0]["e"]) if rets else None
+        t = T.return_term(u, fn)
         ok = isinstance(t, tuple) and t[0] == "cond" and T.show(t[1]).replace(" ", "") in ("(r_a1==std::endian::native)", "(std::endian::native==r_a1)") \
             and T.show(t[2]) == "r_a0" and T.show(t[3]) == "swap(r_a0)"
         (rep.ok if ok else rep.fail)("CONV", "endianness::convert", F.primary_site(fn), F.describe(fn), **({"how": "native ? id : swap"} if ok else {"why": "convert is %s" % (T.show(t) if t else "?")}))
@@ -141,6 +178,11 @@ def main(rep, tier, only):
         loops = [n for n in F.walk(fn.get("body")) if n.get("k") == "range_for"]
         ok = False
         why = "no loop over len/2"
+        revs = [n for (n, d, q) in L.calls_in(u, fn.get("body")) if q == "std::reverse"]
+        if not loops and len(revs) == 1 and len(revs[0].get("args", [])) == 2:
+            a = [T.show(T.snorm(u, fn, x)).replace(" ", "") for x in revs[0]["args"]]
+            ok = a == ["r_a0", "(r_a0+r_a1)"]
+            why = "std::reverse(%s, %s) is not the reversal of exactly [data, data + len)" % (a[0], a[1])
         if loops:
             rng = T.show(T.norm(u, loops[0]["range"]))
             sw = [n for (n, d, q) in L.calls_in(u, loops[0]["body"]) if q == "std::swap"]
@@ -350,11 +392,11 @@ def main(rep, tier, only):
             continue
         seen.add(F.primary_site(fn))
         rets = [r for r in F.walk(fn.get("body"), into_lambdas=False) if r.get("k") == "return"]
-        t = T.norm(u, rets[0]["e"]) if rets else None
+        t = T.return_term(u, fn, subst=False)
         elset = T.show(t[3]) if isinstance(t, tuple) and t[0] == "cond" else ""
         # the else branch is optional::nothing{} converted to the result type (no value involved)
         iss = next((T.show(T.norm(u, n.get("recv"))) for (n, d, q) in L.calls_in(u, fn.get("body")) if q.endswith("::imbue") and n.get("recv") is not None), "?")
-        res = [m.get("name") for m in F.walk(rets[0]["e"]) if m.get("k") == "ref" and m.get("dk") == "local" and m.get("name") != iss] if rets else []
+        res = [m.get("name") for r_ in rets for m in F.walk(r_["e"]) if m.get("k") == "ref" and m.get("dk") == "local" and m.get("name") != iss]
         ok = isinstance(t, tuple) and t[0] == "cond" and T.show(t[1]) == iss + ".eof()" and len(set(res)) == 1 and res[0] in T.show(t[2]) and res[0] not in elset
         imb = [T.show(T.norm(u, n["args"][0])) for (n, d, q) in L.calls_in(u, fn.get("body")) if q.endswith("::imbue")]
         ok = ok and imb == ["r_a1"]
